@@ -1,0 +1,10 @@
+//go:build verif
+
+package types
+
+// VerifSkipSeal, when set by a verification harness, makes verifyCascadingFields accept a header
+// without checking its ethash proof-of-work seal (synthetic test headers cannot be mined).
+// It is false by default, also when the verif tag is on.
+var VerifSkipSeal bool
+
+func verifSkipSeal() bool { return VerifSkipSeal }
